@@ -36,7 +36,7 @@ REQUIRED = {
 
 
 def budget(tier):
-    return 240 if tier == "quick" else 7200
+    return 240 if tier == "quick" else 108000
 
 
 class RecordingRandom(random.Random):
